@@ -44,6 +44,64 @@ def tok_devents(events):
     return t
 
 
+def tok_pevents(events):
+    out = []
+    for e in events:
+        if e == "ul":
+            out.append([1])
+        elif "a" in e:
+            a = e["a"]
+            out.append([0] + vlib.tok_var(a["var"]) + [1 if a["value"] else 0, a["level"], a["reason"]])
+        elif "uu" in e:
+            out.append([2, e["uu"]])
+        elif "prop" in e:
+            out.append([3, e["prop"][0], e["prop"][1]])
+        elif "propres" in e:
+            c = e["propres"]
+            out.append([4, 0 if c is None else c + 1])
+        else:
+            out.append([5])
+    t = [len(out)]
+    for o in out:
+        t += o
+    return t
+
+
+def annotate_propagates(recs):
+    """Adds r['props'] = {calls, assigns, ok}: every call of Solver::propagate in the log makes exactly the assignments
+    (literal, level, reason clause, in order) of the propagate model (coq/Cdcl/Propagate.v: watch lists, moves of watches,
+    assertions first) and ends with the same conflict clause or without one."""
+    lines = []
+    for i, r in enumerate(recs):
+        d = r["obs"].get("dump")
+        if d is None or ss.outcome_kind(r["obs"]["outcome"]) not in ("sat", "unsat") or not d.get("init_watches"):
+            continue
+        db = [len(d["clauses"])]
+        for c in d["clauses"]:
+            db += vlib.tok_clause(c)
+        iw = [len(d["init_watches"])]
+        for w in d["init_watches"]:
+            if w is None:
+                iw += [0]
+            else:
+                iw += [1] + vlib.tok_var(w[0][0]) + [1 if w[0][1] else 0] + vlib.tok_var(w[1][0]) + [1 if w[1][1] else 0]
+        lines.append(f"propagates {i} " + vlib.toks(db, iw, [len(d["asserts"])] + list(d["asserts"]), tok_pevents(d["events"])))
+    out = vlib.oracle(lines)
+    for i, v in out.items():
+        r = recs[int(i)]
+        if v.startswith("error"):
+            r["props"] = {"error": v}
+        else:
+            nc, na, ok_, hyp = v.split()
+            r["props"] = {"calls": int(nc), "assigns": int(na), "ok": ok_ == "1", "hyps": hyp == "1"}
+    return recs
+
+
+def ok_propagates(r):
+    p = r.get("props")
+    return p is None or ("error" not in p and p["ok"] and p["hyps"])
+
+
 def annotate_decides(recs):
     """Adds r['decides'] = {n, ok}: every call of Solver::decide in the log picks the candidate and the clause the
     decide model picks (coq/Cdcl/Decide.v, activity scores in binary32: coq/Float/Activity.v). Only for runs with the
